@@ -3,5 +3,7 @@ CONSTANTS
   Inst = {a, b}
   MaxFiles = 4
   ReloadOnAcquire = FALSE
+  AtomicReload = TRUE
+  MaxZombie = 1
 INVARIANTS TypeOK NoUnmanagedFile NoOrphanAtRest NeverDeletesLiving
 CHECK_DEADLOCK FALSE
